@@ -90,6 +90,13 @@ def reset():
     _LOG_INV.clear()
 
 
+def sid(p):
+    """symbol id of a Poly that is a bare symbol"""
+    (m, c), = p.t.items()
+    assert c == 1 and len(m) == 1 and m[0][1] == 1, p
+    return m[0][0]
+
+
 def _mono(i, e=1):
     return Poly({((i, e),): 1})
 
